@@ -564,7 +564,11 @@ def handleEy (st : St) (args : List String) : St × String :=
         let rows := Ey.runRows g lexs
         -- certificate of the completeness theorem (c05_earley_rows_complete / c05_earley_accept_iff)
         if !Ey.rowsClosed g lexs rows then (st, "rows-not-closed") else
-        (st, "ok " ++ ";".intercalate (rows.map showRow) ++ " acc=" ++ showBool (Ey.accepting g rows))
+        let showAllowed := fun (row : List Ey.Item) =>
+          let ls := canonSet (Ey.allowedLexemes g row)
+          if ls.isEmpty then "-" else ",".intercalate (ls.map toString)
+        (st, "ok " ++ ";".intercalate (rows.map showRow) ++ " acc=" ++ showBool (Ey.accepting g rows)
+          ++ " al=" ++ ";".intercalate (rows.map showAllowed))
       | none => (st, "bad-op")
     | _, _ => (st, "bad-op")
   | _ => (st, "bad-op")
